@@ -118,3 +118,44 @@ Print Assumptions queue_max_is_upper_bound.
 Print Assumptions wellbehaved_traces_are_wf.
 Print Assumptions exact_queue_pick_is_maximal.
 Print Assumptions exact_queue_pop_is_max.
+
+(* C14 end to end (Proofs/SolverPriorityEndToEnd.v): for the GENERATING model - the pick computed by the exact heap of the
+   priority-queue crate, no recording involved - against every provider serving a finite registry: at every decision
+   point every undecided package with a positive term is queued for exactly its current set by its last prioritize
+   call, and the package asked about has the maximal priority of the queue, reported for exactly the offered set. *)
+From Coq Require Import List NArith ZArith Bool Lia PeanoNat Permutation.
+From PG Require Import Model.VS Model.Term Model.Heap Model.Solver Model.Registry Proofs.VSLaws Proofs.SolverSem
+  Proofs.AssocProofs Proofs.SolverStore Proofs.SolverShared Proofs.SolverProto2 Proofs.SolverNoPanic1 Proofs.SolverNoPanic
+  Proofs.SolverTerm1 Proofs.SolverTerm4 Proofs.SolverTerm Proofs.SolverQueue Proofs.SolverQueue2 Proofs.SolverSound
+  Proofs.SolverTrace Proofs.SolverDet Proofs.HeapProofs Proofs.SolverDetQueue Proofs.SolverDetInst Proofs.SolverGen
+  Proofs.SolverProtocol Proofs.SolverTree Proofs.SolverReach Proofs.SolverEndToEnd Proofs.SolverEndToEndFull.
+From PG Require Import Proofs.SolverPriorityEndToEnd.
+Import ListNotations.
+Local Open Scope nat_scope.
+Section C14_end_to_end.
+  Context {VS Vr : Type} (O : VSOps VS Vr) (L : VSLawful O) (veqb : Vr -> Vr -> bool).
+  Context (reg : registry (VS := VS) (Vr := Vr)) (r : pkg) (rv : Vr).
+  Variable R : Ranked O L.
+  Variable pkgs : list pkg.
+  Notation event := (@event VS Vr).
+  Notation tprovider := (@tprovider VS Vr).
+
+  Theorem every_decision_of_the_model_is_maximal :
+    singleton_atomic O L -> reg_wf O L reg ->
+    (forall a b, veqb a b = true -> a = b) -> (forall v, veqb v v = true) -> (forall s, vs_eqb O s s = true) ->
+    finite_registry O L reg r rv R pkgs ->
+    forall (pg : tprovider) fuel res (tr : list event),
+      serves O reg pg -> Fuel1 O L R pkgs <= fuel ->
+      resolve_g O veqb pg fuel r rv = (res, tr) ->
+      forall k cands q n2, nth_error (snd (fst res)) k = Some (cands, q, n2) ->
+        (* every undecided package with a positive term is queued, for exactly its current set, by its LAST
+           prioritize call *)
+        (forall x s, In (x, s) cands -> exists z, get x q = Some (z, s) /\ last_prio_at tr n2 x s z)
+        (* the package asked about at this decision point has the maximal priority of the queue, reported for
+           exactly the offered set, and every queued priority is below it *)
+        /\ (forall p s a, nth_error tr n2 = Some (EvChoose p s a) ->
+              exists z, get p q = Some (z, s) /\ queue_max q = Some z
+                        /\ forall x zx sx, get x q = Some (zx, sx) -> (zx <= z)%Z).
+  Proof. exact (resolve_g_decisions_are_maximal O L veqb reg r rv R pkgs). Qed.
+End C14_end_to_end.
+Print Assumptions every_decision_of_the_model_is_maximal.
